@@ -76,8 +76,8 @@ CLAIMED = {
         "technique": TECH,
     },
     "C13": {
-        "level_text": "bounded symbolic verification of the parent-side protocol of AsyncPettingZooVecEnv (reset/step/call async+wait, set_attr, close/close_extras, _poll_pipe_envs, _raise_if_errors) on an instance wired to in-memory pipes and recorder processes: for EVERY fault schedule (success flag of every worker reply, result of every poll) over 18 enumerated call sequences of length <= 5 with 2(3) workers: out-of-order calls raise NoAsyncCallError / AlreadyPendingCallError / ClosedEnvironmentError, send nothing and leave the state unchanged; a failing worker's exception reaches the caller with its type and the state returns to DEFAULT; a failed poll is reported as TimeoutError; close() never raises, marks the environment closed, closes every pipe, joins or terminates every process, never receives on a pipe without a pending reply, and a second close() is a no-op; plus the worker side: an exception in reset/step/_call is queued with its type, answered (None, False) and the sub-environment is closed",
-        "level_note": NOTE + "; true concurrency, killed processes, wall-clock bounds and OS-level liveness (a worker that never answers) are outside",
+        "level_text": "bounded symbolic verification of the parent-side protocol of AsyncPettingZooVecEnv (reset/step/call async+wait, set_attr, close/close_extras, _poll_pipe_envs, _raise_if_errors) on an instance wired to in-memory pipes and recorder processes: for EVERY fault schedule (success flag of every worker reply, result of every poll) over 25 enumerated call sequences of length <= 5 with 2(3) workers, with a symbolic clock and timeout (any real >= 0; time advances only while a poll waits) in the timeout cases, workers that have exited after raising (send -> BrokenPipeError, recv -> EOFError) and replies that may not have arrived: out-of-order calls raise NoAsyncCallError / AlreadyPendingCallError / ClosedEnvironmentError, send nothing and leave the state unchanged; a failing worker's exception reaches the caller with its type and the state returns to DEFAULT; a failed poll is reported as TimeoutError; the waiting of one *_wait(timeout) call never exceeds the timeout; close() never raises, never blocks in recv() on an unanswered call when given a timeout, marks the environment closed, closes every pipe, joins or terminates every process, never receives on a pipe without a pending reply, and a second close() is a no-op; plus the worker side: an exception in reset/step/_call is queued with its type, answered (None, False) and the sub-environment is closed",
+        "level_note": NOTE + "; true concurrency, processes killed from outside and OS-level scheduling are outside; time is the harness' clock model, not the wall clock",
         "technique": TECH,
     },
     "C20": {
